@@ -1289,6 +1289,20 @@ func ResultAt(ret *ssa.Return, k int) ssa.Value {
 
 // HeldField reports whether a lock whose receiver is field `field` of named type
 // `typ` is held at i, and returns its path.
+// HeldOn reports whether a lock that is field `field` of the object `base` is held at i.
+func (ls *LockSets) HeldOn(i ssa.Instruction, base ssa.Value, field string) (string, bool) {
+	for p := range ls.HeldAt(i) {
+		fa, ok := ls.recv[p].(*ssa.FieldAddr)
+		if !ok || FieldName(fa.X.Type(), fa.Field) != field {
+			continue
+		}
+		if fa.X == base || Expr(fa.X) == Expr(base) {
+			return p, true
+		}
+	}
+	return "", false
+}
+
 func (ls *LockSets) HeldField(i ssa.Instruction, typ, field string) (string, bool) {
 	for p := range ls.HeldAt(i) {
 		if r := ls.recv[p]; r != nil && IsFieldAccess(r, typ, field) {
